@@ -284,7 +284,7 @@ func findDpCase(wide bool) func(c *ev.Case) {
 					c.Add("fd_calls_overflow_allowed", 1)
 				}
 				c.Add("fd_breaker_calls", st.calls)
-				c.Add("fd_breaker_replaced_old", st.replaced)         // old cell list goes to the pool
+				c.Add("fd_breaker_replaced_old", st.replaced)          // old cell list goes to the pool
 				c.Add("fd_breaker_rejected_new", st.calls-st.replaced) // fresh list goes back to the pool
 				ctx := func() string { return call() + " returned " + fmtSolvers(dp) }
 
